@@ -136,6 +136,10 @@ class TypeRender:
                 metas.append('Hash(%s)' % method_spelling('probes::m_hash', key))
         if 'Clone' in self.traits and f['clone'] == 'method':
             metas.append('Clone(%s)' % method_spelling('probes::m_clone', key))
+        if 'Deref' in self.traits and f.get('deref'):
+            metas.append('Deref')
+        if 'DerefMut' in self.traits and f.get('dmut'):
+            metas.append('DerefMut')
         metas += self.extra_field_metas(v, i, f)
         # companion noise: when Debug is educed only as a bystander, give it field attributes of its own,
         # before or after the studied trait's attributes
@@ -213,7 +217,7 @@ class TypeRender:
             return 'const _: fn() = || { fn is_copy<T: ::core::marker::Copy>() {} is_copy::<%s>(); };' % self.name
         return ''
 
-    FIELD_TYPES = {'P': 'P', 'bool': 'bool', 'u64': 'u64', 'unit': '()', 'char': 'char', 'str': "&'static str",
+    FIELD_TYPES = {'P': 'P', 'ref': "&'static P", 'bool': 'bool', 'u64': 'u64', 'unit': '()', 'char': 'char', 'str': "&'static str",
                    'nz': '::core::num::NonZeroU8', 'opt': 'Option<u8>', 'nested': 'probes::Inner'}
     with_finger = True
 
@@ -258,6 +262,23 @@ class TypeRender:
             vs.append('%sV%d%s%s' % (self.variant_attr(v, var), v, self.fields_src(v, var), d))
         return '%senum %s { %s }' % (head, self.name, ', '.join(vs))
 
+    def addrs_impl(self):
+        """impl Addrs: address of every field's storage (referent for reference fields), per variant"""
+        c = self.cfg
+        arms = []
+        for v, var in enumerate(c['variants'], 1):
+            path = self.name if c['kind'] != 'enum' else '%s::V%d' % (self.name, v)
+            n = len(var['fields'])
+            names = ['g%d' % i for i in range(1, n + 1)]
+            if var['style'] == 'named':
+                pat = '%s { %s }' % (path, ', '.join('%s: %s' % (self.fname(v, i), g) for i, g in enumerate(names, 1)))
+            elif var['style'] == 'tuple':
+                pat = '%s(%s)' % (path, ', '.join(names))
+            else:
+                pat = path
+            arms.append('%s => vec![%s],' % (pat, ', '.join('addr_of_p(%s)' % g for g in names)))
+        return 'impl Addrs for %s { fn addrs(&self) -> Vec<usize> { match self { %s } } }' % (self.name, ' '.join(arms))
+
     # ------------------------------------------------------------ Case impl
     def ctor(self, v, var, side='s', vals='x'):
         c = self.cfg
@@ -276,6 +297,8 @@ class TypeRender:
             return 'P::new(%s, %d, %s)' % (side, i, val)
         if ty == 'unit':
             return '()'
+        if ty == 'ref':
+            return '&*Box::leak(Box::new(P::new(%s, %d, %s)))' % (side, i, val)
         return 'probes::mk_%s(%s)' % (ty, val)
 
     def finger_arm(self, v, var):
